@@ -69,9 +69,14 @@ def run(rep, tier):
         if kname.startswith("post-form"):
             # every two-frame cut of the whole body (first boundary line, fields, file part, closing boundary)
             parts = parts + [p_ for p_ in every_cut(body, 1) if p_[0] not in dict(parts)]
+        if kname == "chunk-signed":
+            # every two-frame cut of the encoded upload, also with an EMPTY frame at the cut (between data and its CRLF, inside the CRLF,
+            # inside a header, ...): the readers must simply ask for the next frame
+            parts = parts + [p_ for p_ in every_cut(body, 1) if p_[0] not in dict(parts)]
         for pname, sizes in parts:
             for variant in ("ready", "pending", "empty"):
-                if variant != "ready" and pname not in ("whole", "thirds", "cut@%d" % (len(body) // 2)):
+                every = kname == "chunk-signed" and variant == "empty" and pname.startswith("cut@")
+                if variant != "ready" and not every and pname not in ("whole", "thirds", "cut@%d" % (len(body) // 2)):
                     continue
                 r2 = {k: v for k, v in rq.items() if k != "body"}
                 r2["body_frames"] = frames(body, sizes, pending=(variant == "pending"), empty=(variant == "empty"))
